@@ -56,7 +56,7 @@ def wf_meta(st, m):
     """shape of a SpecClassMetadata record: typed flags, attrs is a dict of well-formed Attr records keyed by name"""
     attrs = fld(st, m, "attrs")
     A = a_of(attrs)
-    has, dv = st.get("dhas", A), st.get("dval", A)
+    has, dv = named(st, st.get("dhas", A), "mhas"), named(st, st.get("dval", A), "mdv")
     k = z3.Const("k!wm", Val)
     return [is_ref(m), st.get("cls_of", a_of(m)) == cid("SpecClassMetadata"), a_of(m) >= 1000, a_of(m) < st.alloc,
             is_bool(fld(st, m, "frozen")), is_bool(fld(st, m, "do_not_copy")),
